@@ -196,7 +196,8 @@ def replay(ctx, case, rep, api):
 
 
 def run_tlc(ctx, fam, rows1, rows2):
-    sub = {'Family = "scale1"': 'Family = "%s"' % fam, "MaxRows = 3": "MaxRows = %d" % rows1, "MaxRows2 = 2": "MaxRows2 = %d" % rows2}
+    sub = {'Family = "scale1"': 'Family = "%s"' % fam, "MaxRows = 3": "MaxRows = %d" % rows1, "MaxRows2 = 2": "MaxRows2 = %d" % rows2,
+           "Usings = {0, 1, 2}": "Usings = %s" % ctx.pick("{0, 1, 2}", "{0, 1, 2, 5}"), "Lite = TRUE": "Lite = %s" % ctx.pick("TRUE", "FALSE")}
     cfg = tracecheck._cfg("ScaleImpute.cfg", sub, ctx.scratch, "si_%s.cfg" % fam)
     return tlc.run("ScaleImpute", cfg, os.path.join(ctx.scratch, fam), workers=ctx.pick(4, 8), timeout=1500, heap=ctx.pick("4g", "12g"))
 
